@@ -5,6 +5,10 @@ import Poulpy.Lemmas.CkksPt
 import Poulpy.Lemmas.CkksMulComp
 import Poulpy.Model.CkksMulData
 import Poulpy.Lemmas.CkksAut
+import Poulpy.Lemmas.CkksMulSem
+import Poulpy.Lemmas.CkksAutBal
+import Poulpy.Lemmas.CkksDot
+import Poulpy.Lemmas.CkksXProg
 /-!
 # C16 — the CKKS evaluator tracks precision metadata through any straight-line program
 
@@ -1148,5 +1152,235 @@ example (big : Bool) : ∃ c', dRotateInto ⟨4, [1], 53⟩ 2 big ⟨[(1, KsDec.
   exact ⟨c', h, hm⟩
 
 end Exact
+
+/-! ## the contracts discharged (round 6)
+
+`ProdContract` for the plaintext product and `AutContract` are now **theorems** about the executed data path:
+
+* piece 1 — `Ks.ι` is a bijection between integer lists of length `N` and `ℤ[X]/(X^N+1)` (`iota_injective`, `iota_surjective`): ring
+  identities of C03/C05 (`AdjoinRoot (X^N+1)`) are read coefficient by coefficient (`ring_to_coeff`);
+* piece 2/3 — the accumulators of `glwe_mul_plain` (C05 `mul_plain_phase_value`) + C08's total normalisation theorems at **every offset**
+  (`NormOff.norm_stage_off`), accumulator head-room as the numeric condition `sb·N·4^b + 8 ≤ 2^(bits−2)`
+  (`AccBound.cnvApplyCol_bound`): `mul_pt_contract`;
+* piece 4 — the masking relation of `cnv_prepare_*` (`mask_relation`: C05 `mask_keeps_top_bits`);
+* same-radix normalisation returns **balanced** digits (`same_radix_balanced`: C08 `normalize_inter_value`), so the results of products
+  and automorphisms are `DOK` again and programs go on (`mul_pt_data_sem`, `aut_result_balanced`);
+* `ckks_add_many` and `ckks_dot_product_pt_vec_znx`: value theorems, no contract, accumulator bound `n·2^(b−1) ≤ 2^62`
+  (`ensure_accumulation_fits`);
+* programs: `program_sem_x` (`xrun_sem`) on tracked states `(M, E, B)` with magnitude bounds.
+
+Still assumed: the ct × ct product contract `MulAdm` (tensor + relinearisation), `AutAdm` (C03's hypotheses on the executed key switch:
+key relation, noise lists, head-room `Hin`/`Hp`, covered shape), the covered offset regime `cnv_offset_hi ≤ sa + sb − 1`. -/
+
+section Discharged
+open Core Core.Ops Ckks.Sem Ckks.CoreSem
+
+/-- **piece 1**: `ι` is injective on lists of length `N` -/
+theorem iota_injective {N : Nat} (hN : 0 < N) {a b : Poly} (ha : a.length = N) (hb : b.length = N) (h : Ks.ι N a = Ks.ι N b) : a = b :=
+  Ks.ι_injective hN ha hb h
+
+example : ([1, -2] : Poly) = [1, -2] := iota_injective (N := 2) (by norm_num) rfl rfl rfl
+
+/-- … and onto -/
+theorem iota_surjective {N : Nat} (hN : 0 < N) (x : Ks.R N) : ∃ p : Poly, p.length = N ∧ Ks.ι N p = x := Ks.ι_surjective hN x
+
+example : ∃ p : Poly, p.length = 2 ∧ Ks.ι 2 p = Ks.ι 2 [3, 4] := iota_surjective (by norm_num) _
+
+/-- **same-radix normalisation returns balanced digits**, every offset, both accumulator widths -/
+theorem same_radix_balanced (big : Bool) (N b rs : Nat) (off : Int) (H : Int) (c C : Col)
+    (hb1 : 1 ≤ b) (hb : b ≤ 62) (hH0 : 0 ≤ H) (hH : H + 8 ≤ 2 ^ (KsDec.bitsOf big - 2)) (hc : ∀ l ∈ c, ∀ x ∈ l, |x| ≤ H)
+    (h : Core.bigNormalizeOff big N b rs off c b = some C) : ∀ l ∈ C, ∀ x ∈ l, |x| ≤ 2 ^ (b - 1) :=
+  NormOff.same_radix_balanced big N b rs off H c C hb1 hb hH0 hH hc h
+
+example : ∀ l ∈ ([[-7], [1]] : Col), ∀ x ∈ l, |x| ≤ (2 : Int) ^ (4 - 1) :=
+  same_radix_balanced true 1 4 2 (-2) 100 [[100], [3]] [[-7], [1]] (by decide) (by decide) (by decide) (by decide) (by decide) (by decide)
+
+/-- **piece 4: the masking relation of `cnv_prepare_*`** -/
+theorem mask_relation {N b r : Nat} {a : DCt} (h : Mask.MaskAdm N b r a.md.effK a.g) (s : List Poly) :
+    MaskedOf s N a (Mask.masked N b a.md.effK a.g) (sn r s / 2 ^ a.md.logDelta) :=
+  Mask.maskedOf_prep h s
+
+def xA_adm : Mask.MaskAdm 2 4 1 xA.md.effK xA.g :=
+  ⟨⟨by decide, rfl, rfl, by decide⟩, by decide, by decide, by decide, by decide⟩
+
+example (s : List Poly) : MaskedOf s 2 xA (Mask.masked 2 4 xA.md.effK xA.g) (sn 1 s / 2 ^ 4) := mask_relation xA_adm s
+
+/-- **`Core.mulPlain` on the CKKS operands satisfies the product contract** (pieces 2 + 3) -/
+theorem mul_pt_contract {N b r K : Nat} (hN : 0 < N) (big : Bool) (rs cnv : Nat) {g : GLWE} (ha : Mask.MaskAdm N b r K g)
+    (pg : Col) (sb : Nat) (hpg : C02L.ColWF N sb pg) (hsb : 1 ≤ sb) (hpd : ∀ l ∈ pg, ∀ x ∈ l, |x| ≤ 2 ^ b)
+    (hhi : (Core.cnvOffsetSplit b cnv).1 ≤ divCeil K b + sb - 1)
+    (hroom : (sb : Int) * (N * 2 ^ b * 2 ^ b) + 8 ≤ 2 ^ (KsDec.bitsOf big - 2)) :
+    ∃ res, Core.mulPlain big N b rs cnv b (effCols b K g) K pg (b * sb) = some res ∧ res.length = r + 1 ∧
+      (∀ c ∈ res, C02L.ColWF N rs c) ∧ (∀ c ∈ res, ∀ l ∈ c, ∀ x ∈ l, |x| ≤ 2 ^ (b - 1)) ∧
+      ∀ s : List Poly, ProdContractZ s N (Ks.mkCt b N res) (Mask.masked N b K g) (C02L.valP b N pg) (b * sb) cnv
+        (-(Core.cnvOffsetSplit b cnv).2).toNat (sn r s) :=
+  mulPt_contract hN big rs cnv ha pg sb hpg hsb hpd hhi hroom
+
+def roomB (big : Bool) : ((2 : Nat) : Int) * (((2 : Nat) : Int) * 2 ^ 4 * 2 ^ 4) + 8 ≤ 2 ^ (KsDec.bitsOf big - 2) := by
+  cases big <;> norm_num [KsDec.bitsOf]
+
+example (big : Bool) : ∃ res, Core.mulPlain big 2 4 2 8 4 (effCols 4 12 xA.g) 12 pgOne (4 * 2) = some res ∧ res.length = 1 + 1 :=
+  let ⟨res, h, hl, _⟩ := mul_pt_contract (N := 2) (b := 4) (r := 1) (K := 12) (by norm_num) big 2 8 xA_adm pgOne 2 (by decide) (by decide)
+    (by decide) (by decide) (roomB big)
+  ⟨res, h, hl⟩
+
+/-- **`ckks_mul_pt_vec_znx_into`, no contract**: balanced digits and the product of the masked operand by the plaintext message -/
+theorem mul_pt_data_sem {env : Env} {N r : Nat} (hN : 0 < N) {big : Bool} {dst a : DCt} {pt : Pt} {pg : Col} {Hd : Int}
+    (hd : GB N env.base2k r Hd dst.g) (ha : Mask.MaskAdm N env.base2k r a.md.effK a.g) (hp : PtOK env N pt pg) {m : Ct}
+    (hm : withPt env pt dst.ct (mulPtZnxInto env dst.ct a.ct pt) = .ok m)
+    (hhi : ∀ q, mulPtParams env dst.ct a.ct pt.md pt.maxK = .ok q →
+      (Core.cnvOffsetSplit env.base2k q.cnv).1 ≤ divCeil a.md.effK env.base2k + pt.size - 1)
+    (hroom : (pt.size : Int) * (N * 2 ^ env.base2k * 2 ^ env.base2k) + 8 ≤ 2 ^ (KsDec.bitsOf big - 2)) :
+    ∃ c', dMulPtInto env N big dst a pt pg = .ok c' ∧ c'.ct = m ∧ DOK env N r c' ∧
+      ∀ s t, t < N → Near (decC s c' t)
+        ((qNegMul (decPG s N (Mask.masked N env.base2k a.md.effK a.g) a.md.logBudget) (ptMsg env N pt pg)).getD t 0)
+        (wrap c') (sn r s * ulp c') :=
+  dMulPtInto_sem hN hd ha hp hm hhi hroom
+
+/-- the plaintext `1` at `log_delta = 4` in two limbs of radix `2^4` -/
+def ptOne : Pt := ⟨⟨4, 4⟩, 4⟩
+
+def xA_mulPt_meta : withPt env4 ptOne xD.ct (mulPtZnxInto env4 xD.ct xA.ct ptOne) = .ok ⟨⟨4, 4⟩, 2⟩ := by decide
+
+def xA_mulPt_shape : ∀ q, mulPtParams env4 xD.ct xA.ct ptOne.md ptOne.maxK = .ok q →
+    (Core.cnvOffsetSplit env4.base2k q.cnv).1 ≤ divCeil xA.md.effK env4.base2k + ptOne.size - 1 := by
+  intro q hq
+  have : mulPtParams env4 xD.ct xA.ct ptOne.md ptOne.maxK = .ok ⟨4, 4, 8⟩ := by decide
+  rw [this] at hq; injection hq with hq; subst hq; decide
+
+def room4 (big : Bool) : (ptOne.size : Int) * ((2 : Nat) * 2 ^ env4.base2k * 2 ^ env4.base2k) + 8 ≤ 2 ^ (KsDec.bitsOf big - 2) := by
+  cases big <;> (show (2 : Int) * (2 * 2 ^ 4 * 2 ^ 4) + 8 ≤ _; norm_num [KsDec.bitsOf])
+
+example (big : Bool) : ∃ c', dMulPtInto env4 2 big xD xA ptOne pgOne = .ok c' ∧ c'.ct = ⟨⟨4, 4⟩, 2⟩ ∧ DOK env4 2 1 c' :=
+  let ⟨c', h, hc, hd, _⟩ := mul_pt_data_sem (env := env4) (by norm_num) (big := big) xD_ok xA_adm pgOne_ok xA_mulPt_meta xA_mulPt_shape
+    (room4 big)
+  ⟨c', h, hc, hd⟩
+
+/-- … composed with the tracking of the operand -/
+theorem mul_pt_tracks {env : Env} {N r : Nat} (hN : 0 < N) {big : Bool} {dst a : DCt} {pt : Pt} {pg : Col} {Hd : Int}
+    (hd : GB N env.base2k r Hd dst.g) (ha : Mask.MaskAdm N env.base2k r a.md.effK a.g) (hp : PtOK env N pt pg) {m : Ct}
+    (hm : withPt env pt dst.ct (mulPtZnxInto env dst.ct a.ct pt) = .ok m)
+    (hhi : ∀ q, mulPtParams env dst.ct a.ct pt.md pt.maxK = .ok q →
+      (Core.cnvOffsetSplit env.base2k q.cnv).1 ≤ divCeil a.md.effK env.base2k + pt.size - 1)
+    (hroom : (pt.size : Int) * (N * 2 ^ env.base2k * 2 ^ env.base2k) + 8 ≤ 2 ^ (KsDec.bitsOf big - 2))
+    {s : List Poly} {Ma : List ℚ} {Ea Ba Bp : ℚ} (hMa : Ma.length = N)
+    (ta : ∀ t, t < N → Near (decC s a t) (Ma.getD t 0) (wrap a) Ea)
+    (sA : SupLe Ma Ba) (sP : SupLe (ptMsg env N pt pg) Bp) (hBa : 0 ≤ Ba) (hBp : 0 ≤ Bp) (hEa : 0 ≤ Ea) :
+    ∃ c', dMulPtInto env N big dst a pt pg = .ok c' ∧ c'.ct = m ∧ DOK env N r c' ∧
+      ∀ t, t < N → Near (decC s c' t) ((qNegMul Ma (ptMsg env N pt pg)).getD t 0) (wrap c')
+        (sn r s * ulp c' + N * ((Ea + sn r s / 2 ^ a.md.logDelta) * Bp)) :=
+  dMulPtInto_tracks hN hd ha hp hm hhi hroom hMa ta sA sP hBa hBp hEa
+
+example (big : Bool) (s : List Poly) : ∃ c', dMulPtInto env4 2 big xD xA ptOne pgOne = .ok c' ∧
+    ∀ t, t < 2 → Near (decC s c' t) ((qNegMul (decP s 2 xA) (ptMsg env4 2 ptOne pgOne)).getD t 0) (wrap c')
+      (sn 1 s * ulp c' + (2 : Nat) * ((0 + sn 1 s / 2 ^ xA.md.logDelta) * supN 2 (fun t => (ptMsg env4 2 ptOne pgOne).getD t 0))) :=
+  let ⟨c', h, _, _, hv⟩ := mul_pt_tracks (env := env4) (by norm_num) (big := big) xD_ok xA_adm pgOne_ok xA_mulPt_meta xA_mulPt_shape
+    (room4 big) (s := s) (Ma := decP s 2 xA) (Ea := 0) (Ba := supN 2 (fun t => (decP s 2 xA).getD t 0))
+    (by simp [decP, decPG]) (fun t ht => by
+      have : (decP s 2 xA).getD t 0 = decC s xA t := decPG_getD s 2 xA.g _ t ht
+      rw [this]; exact Near.refl _ _)
+    (supLe_of_getD (by simp [decP, decPG])) (supLe_of_getD (ptMsg_length env4 2 ptOne pgOne)) (supN_nonneg _ _) (supN_nonneg _ _) (le_refl _)
+  ⟨c', h, hv⟩
+
+/-- **results of rotations / conjugations have balanced digits** when the key is in the evaluator's radix -/
+theorem aut_result_balanced {big : Bool} {N sout rout : Nat} {a : GLWE} {key : Ks.Key} {sk : List Poly} {gInv : Int}
+    {EL KL : ℕ → ℕ → Poly} {Hin Hp : Int} (hN : 0 < N) (ha : C02L.GWF N a) (hbi1 : 1 ≤ a.base2k) (hbi : a.base2k ≤ 62)
+    (h : AutAdm big N a key sk gInv EL KL Hin Hp rout) :
+    ∀ res, Ks.automorphism big key.base2k sout rout a key = .ok res → ∀ c ∈ res.cols, ∀ l ∈ c, ∀ x ∈ l, |x| ≤ 2 ^ (key.base2k - 1) :=
+  automorphism_balanced hN ha hbi1 hbi h
+
+example (big : Bool) : ∀ res, Ks.automorphism big KsDec.exKeyG3.base2k 1 xRot.g.rank xRot.g KsDec.exKeyG3 = .ok res →
+    ∀ c ∈ res.cols, ∀ l ∈ c, ∀ x ∈ l, |x| ≤ (2 : Int) ^ (KsDec.exKeyG3.base2k - 1) :=
+  aut_result_balanced (N := 2) (by norm_num) xRot_ok.wf (by decide) (by decide) (xRot_adm big)
+
+/-- **`ckks_add_many`, no contract** -/
+theorem add_many_sem {env : Env} (he : EnvOK env) {N r : Nat} {dst : DCt} {ins : List DCt} (hd : DOK env N r dst)
+    (hins : ∀ c ∈ ins, DOK env N r c) {m : Ct} (hm : addMany env dst.ct (ins.map DCt.ct) = .ok m)
+    (β0 : Nat) (hβ0 : ∀ c ∈ ins, c.md.logBudget ≤ β0) :
+    ∃ c', dAddMany env N dst ins = .ok c' ∧ c'.ct = m ∧ DOK env N r c' ∧
+      ∀ s t, t < N → Near (decC s c' t) ((ins.map (fun c => decC s c t)).sum) (wrap c')
+        (ins.length * (sn r s * (2 ^ β0 / 2 ^ (env.base2k * dst.g.size)))) :=
+  dAddMany_sem he hd hins hm β0 hβ0
+
+example : ∃ c', dAddMany env4 2 xD [xA, xB, xB] = .ok c' ∧
+    ∀ s t, t < 2 → Near (decC s c' t) (([xA, xB, xB].map (fun c => decC s c t)).sum) (wrap c')
+      (([xA, xB, xB] : List DCt).length * (sn 1 s * (2 ^ 8 / 2 ^ (env4.base2k * xD.g.size)))) :=
+  let ⟨c', h, _, _, hv⟩ := add_many_sem env4_ok xD_ok (ins := [xA, xB, xB]) (by
+      intro c hc; simp only [List.mem_cons, List.mem_nil_iff, or_false] at hc
+      rcases hc with rfl | rfl | rfl
+      · exact xA_ok
+      · exact xB_ok
+      · exact xB_ok) (m := ⟨⟨4, 4⟩, 2⟩) (by decide) 8 (by
+      intro c hc; simp only [List.mem_cons, List.mem_nil_iff, or_false] at hc
+      rcases hc with rfl | rfl | rfl <;> decide)
+  ⟨c', h, hv⟩
+
+/-- **`ckks_dot_product_pt_vec_znx`, no contract** -/
+theorem dot_pt_sem {env : Env} (he : EnvOK env) {N r : Nat} (hN : 0 < N) {big : Bool} {dst : DCt} {aps : List (DCt × Col)} {pt : Pt}
+    (hd : DOK env N r dst) (hadm : ∀ ap ∈ aps, Mask.MaskAdm N env.base2k r ap.1.md.effK ap.1.g ∧ PtOK env N pt ap.2)
+    {m : Ct} (hm : withPt env pt dst.ct (dotPtZnx env dst.ct (aps.map (fun ap => ap.1.ct)) pt) = .ok m)
+    (hhi : ∀ ap ∈ aps, ∀ res : Ct, res.size = dst.g.size → ∀ q, mulPtParams env res ap.1.ct pt.md pt.maxK = .ok q →
+      (Core.cnvOffsetSplit env.base2k q.cnv).1 ≤ divCeil ap.1.md.effK env.base2k + pt.size - 1)
+    (hroom : (pt.size : Int) * (N * 2 ^ env.base2k * 2 ^ env.base2k) + 8 ≤ 2 ^ (KsDec.bitsOf big - 2))
+    (β0 : Nat) (hβ0 : ∀ ap ∈ aps, ap.1.md.logBudget ≤ β0) :
+    ∃ c', dDotPt env N big dst (aps.map Prod.fst) pt (aps.map Prod.snd) = .ok c' ∧ c'.ct = m ∧ DOK env N r c' ∧
+      ∀ s t, t < N → Near (decC s c' t) ((aps.map (fun ap => dotPtTerm env N pt s ap t)).sum) (wrap c')
+        (2 * aps.length * (sn r s * (2 ^ β0 / 2 ^ (env.base2k * dst.g.size)))) :=
+  dDotPt_sem he hN hd hadm hm hhi hroom β0 hβ0
+
+example (big : Bool) : ∃ c', dDotPt env4 2 big xD [xA, xA] ptOne [pgOne, pgOne] = .ok c' ∧ DOK env4 2 1 c' :=
+  let ⟨c', h, _, hd, _⟩ := dot_pt_sem (env := env4) env4_ok (by norm_num) (big := big) (dst := xD) (aps := [(xA, pgOne), (xA, pgOne)])
+    (pt := ptOne) xD_ok (by
+      intro ap hap; simp only [List.mem_cons, List.mem_nil_iff, or_false] at hap
+      rcases hap with rfl | rfl <;> exact ⟨xA_adm, pgOne_ok⟩) (m := ⟨⟨4, 4⟩, 2⟩) (by decide)
+    (by
+      intro ap hap res hres q hq
+      simp only [List.mem_cons, List.mem_nil_iff, or_false] at hap
+      have hap' : ap = (xA, pgOne) := by rcases hap with rfl | rfl <;> rfl
+      subst hap'
+      have hsz : res.size = 2 := hres
+      have : mulPtParams env4 res xA.ct ptOne.md ptOne.maxK = .ok ⟨4, 4, 8⟩ := by
+        simp only [mulPtParams, Ct.maxK, hsz]; decide
+      rw [this] at hq; injection hq with hq; subst hq; decide)
+    (room4 big) 8 (by
+      intro ap hap; simp only [List.mem_cons, List.mem_nil_iff, or_false] at hap
+      rcases hap with rfl | rfl <;> decide)
+  ⟨c', h, hd⟩
+
+/-- **one call of a program with products, rotations and sums** on tracked states -/
+theorem step_sem_x {env : Env} (he : EnvOK env) {N r : Nat} (hN : 0 < N) {mk : MulKey} {ak : AutKeys} {pool : DPool}
+    (hp : AllOK env N r pool) (s : List Poly) {Uc Ua : ℚ} (hUc : 0 ≤ Uc) (hUa : 0 ≤ Ua) (op : XOp)
+    (hadm : XAdm env N r mk ak s Uc Ua pool op) {mp : Ckks.Pool} (hm : stepR env (DPool.cts pool) op.toOp = .ok mp) :
+    XGoal env N r mk ak s pool op mp (fun τ => xspec env N ak (sn r s) Uc Ua (DPool.cts pool) mp τ op) :=
+  xstep_sem he hN hp s hUc hUa op hadm hm
+
+/-- **programs with products, rescales, rotations, plaintext operations and sums.**  Metadata run `Ok` + every call admissible where it
+is executed ⟹ data run `Ok` with the same metadata, balanced digits everywhere, and the tracked state `(M, E, B)` follows `xspecRun`. -/
+theorem program_sem_x {env : Env} (he : EnvOK env) {N r : Nat} (hN : 0 < N) {mk : MulKey} {ak : AutKeys} (s : List Poly) {Uc Ua : ℚ}
+    (hUc : 0 ≤ Uc) (hUa : 0 ≤ Ua) (ops : List XOp) {pool : DPool} (hp : AllOK env N r pool)
+    (hadm : RunAdm env N r mk ak s Uc Ua pool ops) {mp : Ckks.Pool} (hm : run env (DPool.cts pool) (ops.map XOp.toOp) = .ok mp) :
+    ∃ pool', xrun env N mk ak pool ops = .ok pool' ∧ DPool.cts pool' = mp ∧ AllOK env N r pool' ∧
+      ∀ τ, TracksB s N pool τ → TracksB s N pool' (xspecRun env N ak (sn r s) Uc Ua (DPool.cts pool) τ ops) :=
+  xrun_sem he hN s hUc hUa ops hp hadm hm
+
+/-- product by a plaintext into slot 2, negate it, rescale it: executed on the data path, tracked -/
+def progX : List XOp := [.mulPt 2 0 ptOne pgOne, .lin (.negAssign 2), .lin (.rescaleAssign 2 1)]
+
+example (big : Bool) (s : List Poly) : ∃ pool', xrun env4 2 ⟨big, zk4⟩ ⟨[], none⟩ [xA, xB, xD] progX = .ok pool' ∧ AllOK env4 2 1 pool' ∧
+    ∀ τ, TracksB s 2 [xA, xB, xD] τ →
+      TracksB s 2 pool' (xspecRun env4 2 ⟨[], none⟩ (sn 1 s) 0 0 (DPool.cts [xA, xB, xD]) τ progX) :=
+  let ⟨pool', h, _, hok, ht⟩ := program_sem_x (env := env4) env4_ok (by norm_num) (mk := ⟨big, zk4⟩) (ak := ⟨[], none⟩) s (Uc := 0) (Ua := 0)
+    (le_refl _) (le_refl _) progX pool4_ok
+    (by
+      refine ⟨⟨pgOne_ok, ?_, room4 big⟩, fun _ _ => ⟨trivial, fun _ _ => ⟨trivial, fun _ _ => trivial⟩⟩⟩
+      intro cd ca hcd hca
+      have h1 : cd = xD := by simpa using hcd.symm
+      have h2 : ca = xA := by simpa using hca.symm
+      subst h1; subst h2
+      exact xA_mulPt_shape)
+    (mp := ([⟨⟨4, 8⟩, 3⟩, ⟨⟨4, 4⟩, 2⟩, ⟨⟨4, 3⟩, 2⟩] : Ckks.Pool)) (by decide)
+  ⟨pool', h, hok, ht⟩
+
+end Discharged
 
 end C16
